@@ -128,9 +128,22 @@ def rules(rep, m):
         dom = Q(m, "cmb_resource", region.CLASSES["cmb_resource"], f, set(), {},
                 {"findings": [], "installs": [], "samples": [], "events": [], "region_ends": []})
         Flow(m, f, dom).run()
+        # a comparison of the holder with NULL returned as a number is its truth value in both cases
+        hn = re.escape(f.params[0]["name"] + "->holder")
+        for v_ in list(outs.get("U", ())):
+            if re.fullmatch(r"\(%s == (NULL|0)\)|!\(%s != (NULL|0)\)|\(!%s\)|!%s" % (hn, hn, hn, hn), v_ or ""):
+                outs["U"].discard(v_)
+                outs.setdefault("N", set()).add("1")
+                outs.setdefault("NN", set()).add("0")
+            elif re.fullmatch(r"\(%s != (NULL|0)\)|!\(%s == (NULL|0)\)" % (hn, hn), v_ or ""):
+                outs["U"].discard(v_)
+                outs.setdefault("N", set()).add("0")
+                outs.setdefault("NN", set()).add("1")
+        if "U" in outs and not outs["U"]:
+            del outs["U"]
         r3.instance("%s: returns %s" % (qn, {k: sorted(v) for k, v in outs.items()}))
         other = "1" if when_null == "0" else "0"
-        if outs.get("N") != {when_null} or outs.get("NN") != {other}:
+        if outs.get("N") != {when_null} or outs.get("NN") != {other} or "U" in outs:
             rep.finding(r3, qn, "query-value", "%s returns %s; expected %s when free and %s when held"
                         % (qn, {k: sorted(v) for k, v in outs.items()}, when_null, other), where=m.rel(f.where))
             r3.fail()
